@@ -1245,7 +1245,9 @@ template <typename FSM> void Explorer<FSM>::copyCheck(const Node& n, const Op& o
 	if (r.env.trace.size() != t0) { Exec e = ref; violation("C10", "copy/callbacks-during-copy", "copy construction invoked user callbacks", e); }
 	// run the step on the copy
 	typename E::Instance* orig = r.fsm;
+	const std::string answersOrig = r.answers();
 	r.fsm = copy;
+	if (r.answers() != answersOrig) { Exec e = ref; violation("C10", "copy/answers-differ", "right after copy construction the copy answers differently from its original (isActive/isResumable, previousTransitions(), lastTransitionTo(), structure report): " + r.answers() + " vs " + answersOrig, e); }
 	const std::string keyCopyBefore = r.key();
 	Step st{op, {}};
 	const size_t t1 = r.env.trace.size();
